@@ -71,6 +71,22 @@ hint["n"] = ("Put the defect in a LONG-HORIZON or ACCUMULATING quantity: somethi
              "the ring has wrapped twice, an address or cycle count beyond 16 / 20 / 32 bits, the N-th repetition of an auto-repeat, the third nested "
              "level, a phase that is lost on the second restore. Short runs from a fresh object, and any single operation, must still behave "
              "correctly. Avoid the most obvious arithmetic or table site.")
+hint["o"] = ("Put the defect behind a NON-DEFAULT CONFIGURATION that the property still covers: a memory card present (or of an unusual size), "
+             "the second device profile (IQ-7000) instead of the PC-E500, a ROM / RAM overlay installed at run time, a constructor option, "
+             "threshold, polarity, repeat setting or period that differs from the default, tracing or performance counters switched on, "
+             "a keyboard handler / bridge layered over the matrix, the `fast` or `batch` variant of a stepping entry point, a chip switched off, "
+             "an emulator that was reset or re-initialised rather than freshly constructed. With the default configuration, and in every "
+             "existing test, the code must behave exactly as before. Avoid the most obvious arithmetic or table site.")
+hint["q"] = ("Make it TWO COOPERATING SITES that each look fine alone: two small edits in different functions (or files) - for example a helper "
+             "that now returns a slightly wider / differently normalised value and a caller that no longer masks it, a producer that now leaves "
+             "a field stale on one path and a consumer that trusts it, a default changed in one place and relied on in another, a decode-side "
+             "change that is only harmful together with a render / lift / encode-side one. Either edit applied by itself must leave the property "
+             "intact (say so in meta.json and check it); only the combination breaks it, and only for a specific input, state or sequence.")
+hint["s"] = ("Read the property statement sentence by sentence and pick its LEAST PROMINENT clause - the last sentence, a parenthesis, a "
+             "'consequently', an 'in particular', the behaviour named for one rare kind of statement / event / register / directive - the one a "
+             "verifier who concentrated on the headline would most easily have left out. Break exactly that clause and nothing the headline "
+             "says; the change should need a specific input, state or sequence to show. Say in meta.json which clause you targeted. "
+             "Avoid the most obvious arithmetic or table site.")
 hint = hint[variant]
 print(f"""You are helping test a verification framework for the repository mblsha/binja-esr (a Binary Ninja plugin + emulator for the Sharp SC62015 CPU: decoder/encoder, LLIL lifter, assembler, PC-E500 machine emulator in Python under pce500/, and a Rust core under sc62015/core).
 
